@@ -253,6 +253,10 @@ class Runner:
             for label, detail in r["failed"]:
                 if label.startswith("oracle:"):
                     self.harness_errors.append("%s: oracle disagreement: %s at witness %s %s" % (unit, label, json.dumps(w["inputs"])[:300], detail[-300:]))
+                elif label == "harness-exception:HarnessBug" and "no value for input" in detail:
+                    # the real code went on to ask for an input the symbolic run never reached: the symbolic run of this path stopped
+                    # early (an operation the engine could not follow), so its verdict is dropped; nothing is known about the repository
+                    self.note_divergence(unit, "the native run needs an input the symbolic path never created (%s) at witness %s" % (detail.strip().splitlines()[-1][-120:], json.dumps(w["inputs"])[:300]))
                 elif label.startswith("harness-exception:"):
                     self.harness_errors.append("%s: %s at witness %s %s" % (unit, label, json.dumps(w["inputs"])[:300], detail[-300:]))
                 else:
